@@ -611,3 +611,32 @@ Proof.
   - intros xp d [E|[E|[E|[]]]] Hp; inversion E; subst; try (cbn in Hp; discriminate).
     exists "x"%string. split; [reflexivity|]. left. reflexivity.
 Qed.
+
+(* ---- prime.rename_variables --------------------------------------------------------------------------- *)
+(* when the function returns, the result is the simultaneous renaming of the
+   unprimed AND the primed occurrences *)
+Theorem rename_variables_sem t lt u r : wf_tbl t -> uses_only (all_bits t) u ->
+  rename_variables t lt u = Some r ->
+  exists lp, map_opt (fun kv => match sprime (fst kv), sprime (snd kv) with
+                                | Some k, Some v => Some (k, v)
+                                | _, _ => None
+                                end) lt = Some lp /\
+    let lt' := dict_update String.eqb lt lp in
+    (ren_ok t lt' -> forall f, sem t r f = sem t u (frename f lt')) /\
+    (forall s, ctx_support t r = Some s -> forall k, In k s -> ~ In k (map fst lt')).
+Proof.
+  intros Hwf Hu H. unfold rename_variables in H.
+  destruct (map_opt _ lt) as [lp|] eqn:Ep; [|discriminate].
+  exists lp. split; auto. cbv zeta.
+  set (lt' := dict_update String.eqb lt lp) in *.
+  destruct (ctx_let_vars t lt' u) as [r'|] eqn:El; [|discriminate].
+  destruct (ctx_support t r') as [s|] eqn:Es; [|discriminate].
+  destruct (existsb (fun k => mem String.eqb k (map fst lt')) s) eqn:Ex; [discriminate|].
+  inversion H; subst r'. split.
+  - intros Hok f. destruct (rename_spec t lt' u Hwf Hu Hok) as (r2 & E2 & _ & Hr2).
+    rewrite El in E2. inversion E2; subst r2. apply Hr2.
+  - intros s' Es' k Hk Hin. rewrite Es in Es'. inversion Es'; subst s'.
+    assert (existsb (fun k => mem String.eqb k (map fst lt')) s = true); [|congruence].
+    apply existsb_exists. exists k. split; auto.
+    apply (mem_spec String.eqb string_eqb_spec'). auto.
+Qed.
